@@ -42,9 +42,21 @@ pub fn judge(x: &[u8], rec: &mut Recorder, simulate: bool) {
     let fin = must_be_final(x);
     rec.case(hash_bytes(x), fin);
     rec.class(shape(x), || show(x, 120));
-    if fin {
+    // every input goes through every entry point (an input that does not meet the precondition
+    // is not judged, but the call is part of the history the next input is parsed after); once
+    // before and - when the receiver runs - once after the receiver simulation
+    for pass in 0..2 {
+        if pass == 1 {
+            if !(simulate && x.len() <= 260) {
+                break;
+            }
+            receiver(x, rec);
+        }
         for (entry, o) in entries(x) {
             rec.event();
+            if !fin {
+                continue;
+            }
             match &o {
                 O1::Panic(_) => rec.class("observed:panic(C03's subject)", || show(x, 120)),
                 _ => {
@@ -62,8 +74,11 @@ pub fn judge(x: &[u8], rec: &mut Recorder, simulate: bool) {
             }
         }
     }
-    // bounded-progress receiver: byte-at-a-time, stop at the first complete verdict
-    if simulate && x.len() <= 260 {
+}
+
+/// bounded-progress receiver: byte-at-a-time, stop at the first complete verdict
+fn receiver(x: &[u8], rec: &mut Recorder) {
+    {
         if let Some(limit) = final_by(x) {
             for entry in 0..2 {
                 let mut stopped_at = None;
